@@ -51,6 +51,7 @@ StepsOf(c) ==
        \cup {[op |-> "loginbegin", c |-> c, login |-> v[1], pw |-> v[2], flow |-> f, name |-> A, icon |-> 1, id |-> -1]
           : v \in {<<"", <<>>>>, <<"adm", <<1>>>>, <<"adm", <<2>>>>}, f \in {"old", "new"}}
        \cup (IF Thin THEN {} ELSE {[op |-> "close", c |-> c]})
+  ELSE IF conn[c].ph = "dialed" THEN {[op |-> "handshake", c |-> c]}
   ELSE IF conn[c].ph = "auth" THEN {[op |-> "loginend", c |-> c, id |-> NextId]}
   ELSE IF conn[c].ph = "closing" THEN {[op |-> "closeend", c |-> c]}
   ELSE IF conn[c].ph = "in" /\ conn[c].away THEN {[op |-> "wake", c |-> c], [op |-> "close", c |-> c]}
@@ -76,6 +77,7 @@ StepsOf(c) ==
 
 GlobalSteps ==
   (IF AnyFree THEN {[op |-> "connect", c |-> LowestFree, addr |-> a] : a \in Addrs} ELSE {})
+  \cup (IF AnyFree THEN {[op |-> "dial", c |-> LowestFree, addr |-> a] : a \in Addrs} ELSE {})   \* accepted, handshake still to come
   \cup {[op |-> "banadd", addr |-> a, class |-> k] : a \in {x \in Addrs : BanOf(x) = "none"}, k \in {"soon", "past", "perm"}}
   \cup (IF \E a \in DOMAIN bans : bans[a] = "soon" THEN {[op |-> "wait"]} ELSE {})
   \cup (IF \E c \in Conns : conn[c].ph \in {"in", "open"} THEN {[op |-> "restart"]} ELSE {})
@@ -130,7 +132,7 @@ RosterConverges == \A c \in {d \in Ready : conn[d].ph = "in"} : view[c].on => {r
 FreshIdOnLogin == [][\A c \in Conns : conn[c].ph # "in" /\ conn'[c].ph = "in" => ~InUse(conn'[c].id)]_mcvars
 
 (* C17: a connection from a refused address never gets past the door *)
-BanAtDoor == [][\A c \in Conns : conn[c].ph = "free" /\ conn'[c].ph = "open" => ~Refused(conn'[c].addr)]_mcvars
+BanAtDoor == [][\A c \in Conns : conn[c].ph \in {"free", "dialed"} /\ conn'[c].ph = "open" => ~Refused(conn'[c].addr)]_mcvars
 
 (* C12: after leaving, nothing from that chat *)
 NoPostLeaveDelivery ==
